@@ -47,7 +47,9 @@ LEVEL_NOTE = ('theorems are about the Gallina model Model/PrimEq.v (+ Model/Impl
               'vertical_advection=upwind_vertical_advection is outside the claim for non-uniform profiles (the implicit H always '
               'advects T_ref with the centred scheme; measured 0.3 relative on the pinned tree), oracles use it with '
               'level-uniform profiles only; grids on which the exactness obligations fail (equiangular latitudes, '
-              'longitude_nodes = 2(M-1)) are outside the claim (measured split dependence 4e-3 / 9e-2); device meshes are not exercised')
+              'longitude_nodes = 2(M-1)) are outside the claim (measured split dependence 4e-3 / 9e-2); on the 8-longitude grid '
+              'the moist classes are claimed for humidity/lnps of degree <= 1 only (Leibniz obligation fails beyond); '
+              'device meshes are not exercised')
 TECHNIQUE = 'proof+differential-correspondence+metamorphic-oracle'
 
 CLOUD_CLAUSE = 'cloud-moist class: total tendency independent of T_ref with non-zero cloud condensate'
@@ -200,6 +202,14 @@ def base_fields(a, grid, K):
 # case generation
 # ---------------------------------------------------------------------------
 def generate(ctx):
+    # two independently drawn profiles can coincide (K = 1): nudge the second so that every case is non-vacuous
+    for runner, args in _generate(ctx):
+        if 'T1' in args and args['T1'] == args.get('T2'): args['T2'] = [t + 0.25 for t in args['T2']]
+        if 'TA' in args and args['TA'] == args.get('TB'): args['TB'] = [t + 0.25 for t in args['TB']]
+        yield runner, args
+
+
+def _generate(ctx):
     rng = ctx.rng
     quick = ctx.tier == 'quick'
     def levels(K, r):
@@ -304,6 +314,9 @@ def generate(ctx):
                   for (st, am) in (('rest', 1.0), ('top_mode', 1e3), ('zero_q', 1.0), ('int', 1e-3))]
         extra += [ocase(c, 3, ntr=2, batch=1) for c in ('time', 'cloud')]
     for d in extra:
+        # 8 longitude nodes resolve the linear terms of M=4 exactly but not the product q*grad(lnps) of the moist
+        # corrections at full degree: the moist classes are claimed there for humidity/lnps of degree <= 1 only
+        if d['grid'] == 'g5l8' and d['cls'] in ('moist', 'cloud'): d['lmax'] = 1
         ctx.count('oracle:extra ' + ' '.join('%s=%s' % (k, d[k]) for k in ('grid', 'method', 'state', 'batch') if k in d and d[k] not in (None, 'g5')))
         yield 'oracle', d
     # non-default vertical advection scheme: the implicit half always uses the centred scheme, so invariance is claimed
@@ -317,7 +330,7 @@ def generate(ctx):
         yield 'corr', {'cls': cls, 'grid': g, 'K': K, 'b': levels(K, r), 'Tref': profile(K), 'phys': PHYS[r % 4], 'oro': 1, 'ntr': 1,
                        'va': 1, 'seed': int(rng.integers(1 << 30)), 'nodes': 4, 'sparse': r % 2}
     for g in (['g5fast'] if quick else ['g5fast', 'g5zi', 'g5r', 'wide', 'tall', 'g47', 'g5l8']):
-        yield 'obligations', {'grid': g, 'seed': int(rng.integers(1 << 30))}
+        yield 'obligations', dict({'grid': g, 'seed': int(rng.integers(1 << 30))}, **({'lq': 1} if g == 'g5l8' else {}))
     for cls, K in ([('dry', 2)] if quick else [('dry', 2), ('moist', 3), ('cloud', 2)]):
         yield 'jit_order', {'cls': cls, 'grid': 'g5', 'K': K, 'b': levels(K, 0), 'T1': profile(K), 'T2': profile(K), 'oro': 1,
                             'ntr': 1 if cls == 'dry' else 0, 'seed': int(rng.integers(1 << 30)), 'lmax': 9, 'amp': 1.0}
@@ -624,7 +637,11 @@ def r_obligations(ctx, a):
         worst['H_div_vel'] = max(worst['H_div_vel'], A(clip(grid.div_cos_lat((mu, mv), clip=False)) - dv) / A(dv))
         worst['H_curl_vel'] = max(worst['H_curl_vel'], A(clip(grid.curl_cos_lat((mu, mv), clip=False)) - vort) / A(vort))
         # Leibniz on the nodal side: div(sec2 * q * grad phi) = q lap phi + sec2 * grad q . grad phi
-        q = rand_modal(rng, grid, (2,), L - 2)
+        lq = int(a.get('lq', L - 2))       # degree of q and lnps in the Leibniz check (products must be alias-free on the grid)
+        q = rand_modal(rng, grid, (2,), lq)
+        if lq < L - 2:
+            phi = rand_modal(rng, grid, (2,), lq); gn = [np.asarray(t) for t in grid.to_nodal(grid.cos_lat_grad(phi, clip=False))]
+            lap = np.asarray(grid.laplacian(phi))
         qn = np.asarray(grid.to_nodal(q)); gq = [np.asarray(t) for t in grid.to_nodal(grid.cos_lat_grad(q, clip=False))]
         mu = grid.to_modal(qn * gn[0] * sec2); mv = grid.to_modal(qn * gn[1] * sec2)
         rhs = grid.to_modal(qn * np.asarray(grid.to_nodal(lap)) + sec2 * (gq[0] * gn[0] + gq[1] * gn[1]))
